@@ -30,11 +30,14 @@ pub struct GenCfg {
   pub neg_division: bool,
   pub single_field_struct_payload: bool,
   pub possibly_zero_divisor: bool,
+  /// steer the universe towards shapes a fault kind needs
+  pub force_interface: bool,
+  pub force_multi_module: bool,
 }
 
 impl Default for GenCfg {
   fn default() -> Self {
-    GenCfg { max_classes: 5, max_depth: 4, node_budget: 220, string_escapes: false, non_ascii_strings: false, wide_vec_ints: false, unboxable_recursive_enum: true, param_swap_tail_calls: true, big_ints: true, single_variant_pointer_enum: true, rec_call_in_short_circuit: true, tuple_typed_field: true, lambda_this_in_generic_class: true, lambda_this_in_enum_class: true, fn_typed_field_in_generic_class: true, fuel_in_base_case: true, effects_in_rec_call_args: true, derived_induction_args: true, neg_division: true, single_field_struct_payload: true, possibly_zero_divisor: true }
+    GenCfg { max_classes: 5, max_depth: 4, node_budget: 220, string_escapes: false, non_ascii_strings: false, wide_vec_ints: false, unboxable_recursive_enum: true, param_swap_tail_calls: true, big_ints: true, single_variant_pointer_enum: true, rec_call_in_short_circuit: true, tuple_typed_field: true, lambda_this_in_generic_class: true, lambda_this_in_enum_class: true, fn_typed_field_in_generic_class: true, fuel_in_base_case: true, effects_in_rec_call_args: true, derived_induction_args: true, neg_division: true, single_field_struct_payload: true, possibly_zero_divisor: true, force_interface: false, force_multi_module: false }
   }
 }
 
@@ -144,7 +147,16 @@ impl<'t> Gen<'t> {
         Ty::Tuple((0..k).map(|_| self.prim()).collect())
       }
       3 => Ty::TParam(tparams[self.t.choose(tparams.len())].clone()),
-      4 => Ty::Fn(vec![Ty::Int], Box::new(self.prim())),
+      4 => {
+        // signatures that also occur as member signatures, so that references are possible
+        let sigs: Vec<(Vec<Ty>, Ty)> = self.funs.iter().filter(|f| f.tparams.is_empty() && f.class_tparams.is_empty() && f.fuel.is_none() && f.params.len() <= 2 && !f.params.iter().any(super::progen::contains_tparam) && !super::progen::contains_tparam(&f.ret)).map(|f| (f.params.clone(), f.ret.clone())).collect();
+        if !sigs.is_empty() && self.t.bool(1, 2) {
+          let (p, r) = sigs[self.t.choose(sigs.len())].clone();
+          Ty::Fn(p, Box::new(r))
+        } else {
+          Ty::Fn(vec![Ty::Int], Box::new(self.prim()))
+        }
+      }
       5 => Ty::Vec(Box::new(Ty::Int)),
       _ => Ty::Class(vec!["std".into(), "option".into()], "Option".into(), vec![self.prim()]),
     }
@@ -165,12 +177,12 @@ impl<'t> Gen<'t> {
   // ------------------------------------------------------------------ program
 
   pub fn program(&mut self) -> ProgramIr {
-    let nmods = 1 + self.t.weighted(&[5, 3, 2]);
+    let nmods = if self.cfg.force_multi_module { 2 + self.t.choose(2) } else { 1 + self.t.weighted(&[5, 3, 2]) };
     let paths: Vec<Vec<String>> = (0..nmods).map(|i| if i == 1 { vec!["lib".to_string(), format!("M{i}")] } else { vec![format!("M{i}")] }).collect();
     let mut modules: Vec<ModuleIr> = paths.iter().map(|p| ModuleIr { path: p.clone(), classes: vec![] }).collect();
     let nclasses = 1 + self.t.small_len(self.cfg.max_classes - 1);
     // optional interface
-    if self.t.bool(2, 5) {
+    if self.t.bool(2, 5) || self.cfg.force_interface {
       self.has_cmp = true;
       self.cmp_module = paths[0].clone();
       self.feat("interface+bounded-generics");
@@ -306,7 +318,7 @@ impl<'t> Gen<'t> {
     let is_util = matches!(typedef, TypeDef::None);
     let tparams = if is_util { vec![] } else { tparams };
     let self_ty = Ty::Class(module.to_vec(), name.clone(), tparams.iter().map(|p| Ty::TParam(p.clone())).collect());
-    let comparable = self.has_cmp && !is_util && tparams.is_empty() && self.t.bool(1, 2);
+    let comparable = self.has_cmp && !is_util && tparams.is_empty() && (self.t.bool(1, 2) || self.cfg.force_interface);
     let sig = ClassSig { module: module.to_vec(), name: name.clone(), tparams: tparams.clone(), typedef: typedef.clone(), comparable };
     self.classes.push(sig);
     let mut members = vec![];
@@ -325,8 +337,8 @@ impl<'t> Gen<'t> {
       if !is_method {
         scope_tparams.clear();
       }
-      if self.t.bool(1, 5) {
-        let bound = if self.has_cmp && self.t.bool(1, 2) {
+      if self.t.bool(1, 5) || (self.cfg.force_interface && !is_method && self.t.bool(1, 2)) {
+        let bound = if self.has_cmp && (self.t.bool(1, 2) || self.cfg.force_interface) {
           Some(Ty::Class(self.cmp_module.clone(), "Cmp".into(), vec![Ty::TParam("U".into())]))
         } else {
           None
@@ -1030,8 +1042,9 @@ impl<'t> Gen<'t> {
     }
     // type-specific productions
     match ty {
-      Ty::Int => match self.t.weighted(&[4, 10, 3, 3, 2, 2, 4]) {
+      Ty::Int => match self.t.weighted(&[4, 10, 3, 3, 2, 2, 4, if cx.no_effects { 0 } else { 3 }]) {
         0 => self.leaf(ty, cx),
+        7 => self.vec_workout(cx),
         6 => self.cmp_call(cx).unwrap_or_else(|| self.leaf(ty, cx)),
         1 => {
           let op = ["+", "-", "*", "/", "%"][self.t.weighted(&[5, 4, 3, 2, 2])];
@@ -1139,6 +1152,24 @@ impl<'t> Gen<'t> {
           self.feat("function-reference");
           return Expr::new(ty.clone(), EK::StaticRef { module: f.module, class: f.class, member: f.name });
         }
+        // method reference `x.m` / `this.m` taken as a value
+        let mcands: Vec<FunSig> = self.funs.iter().filter(|f| f.is_method && f.tparams.is_empty() && f.class_tparams.is_empty() && f.fuel.is_none() && &f.params == ps && f.ret == **r).cloned().collect();
+        if !mcands.is_empty() && self.t.bool(1, 2) {
+          let f = mcands[self.t.choose(mcands.len())].clone();
+          let rty = Ty::Class(f.module.clone(), f.class.clone(), vec![]);
+          let vars = self.vars_of(&rty, cx);
+          let recv = if !vars.is_empty() {
+            Some(Expr::new(rty.clone(), EK::Var(vars[self.t.choose(vars.len())].clone())))
+          } else if cx.this.as_ref() == Some(&rty) {
+            Some(Expr::new(rty.clone(), EK::This))
+          } else {
+            None
+          };
+          if let Some(recv) = recv {
+            self.feat("method-reference");
+            return Expr::new(ty.clone(), EK::MethodRef { recv: Box::new(recv), method: f.name });
+          }
+        }
         self.feat("lambda");
         let params: Vec<(String, Ty)> = ps.iter().map(|p| (self.fresh("a"), p.clone())).collect();
         let n = params.len();
@@ -1203,6 +1234,60 @@ impl<'t> Gen<'t> {
     let b = if matches!(t, Ty::TParam(_)) || self.t.bool(1, 2) { Expr::new(t.clone(), EK::Var(vars[self.t.choose(vars.len())].clone())) } else { self.leaf(&t, cx) };
     self.feat("bounded-dispatch:cmp");
     Some(Expr::new(Ty::Int, EK::MethodCall { recv: Box::new(Expr::new(t, EK::Var(a))), method: "cmp".into(), targs: vec![], args: vec![b] }))
+  }
+
+  /// a block that fills a fresh Vec (to and beyond its capacity), then pops / sets / reads it
+  fn vec_workout(&mut self, cx: &mut Ctx) -> Expr {
+    self.feat("vec-workout");
+    let vty = Ty::Vec(Box::new(Ty::Int));
+    let v = self.fresh("w");
+    let var = |n: &str| Expr::new(vty.clone(), EK::Var(n.to_string()));
+    let call = |recv: Expr, m: &str, args: Vec<Expr>, ret: Ty| Expr::new(ret, EK::MethodCall { recv: Box::new(recv), method: m.into(), targs: vec![], args });
+    let init = match self.t.choose(3) {
+      0 => Expr::new(vty.clone(), EK::StaticCall { module: vec![], class: "Vec".into(), member: "empty".into(), targs: vec![Ty::Int], args: vec![] }),
+      1 => Expr::new(vty.clone(), EK::StaticCall { module: vec![], class: "Vec".into(), member: "of".into(), targs: vec![Ty::Int], args: vec![Expr::new(Ty::Int, EK::Int(self.t.choose(100) as i32))] }),
+      _ => Expr::new(vty.clone(), EK::StaticCall { module: vec![], class: "Vec".into(), member: "withCapacity".into(), targs: vec![Ty::Int], args: vec![Expr::new(Ty::Int, EK::Int([0, 1, 2, 3, 4, 8][self.t.choose(6)]))] }),
+    };
+    let mut stmts = vec![Stmt::Let { pat: Pat::Var(v.clone(), vty.clone()), annot: Some(vty.clone()), init }];
+    let pushes = [0usize, 1, 2, 3, 4, 5, 7, 8, 9, 16, 17][self.t.choose(11)];
+    for i in 0..pushes {
+      let x = Expr::new(Ty::Int, EK::Int(i as i32 * 3 - 5));
+      stmts.push(Stmt::Expr(call(var(&v), "push", vec![x], Ty::Unit)));
+    }
+    let ops = 1 + self.t.choose(5);
+    let mut acc = self.fresh("s");
+    stmts.push(Stmt::Let { pat: Pat::Var(acc.clone(), Ty::Int), annot: Some(Ty::Int), init: Expr::new(Ty::Int, EK::Int(0)) });
+    let mut len = pushes as i64 + if matches!(stmts[0], Stmt::Let { init: Expr { kind: EK::StaticCall { ref member, .. }, .. }, .. } if member == "of") { 1 } else { 0 };
+    for _ in 0..ops {
+      let e = match self.t.choose(5) {
+        0 if len > 0 => {
+          len -= 1;
+          call(var(&v), "pop", vec![], Ty::Int)
+        }
+        1 if len > 0 => {
+          let i = self.t.choose(len as usize) as i32;
+          call(var(&v), "get", vec![Expr::new(Ty::Int, EK::Int(i))], Ty::Int)
+        }
+        2 if len > 0 => {
+          let i = self.t.choose(len as usize) as i32;
+          stmts.push(Stmt::Expr(call(var(&v), "set", vec![Expr::new(Ty::Int, EK::Int(i)), Expr::new(Ty::Int, EK::Int(77))], Ty::Unit)));
+          call(var(&v), "get", vec![Expr::new(Ty::Int, EK::Int(i))], Ty::Int)
+        }
+        3 => {
+          len += 1;
+          stmts.push(Stmt::Expr(call(var(&v), "push", vec![Expr::new(Ty::Int, EK::Int(41))], Ty::Unit)));
+          call(var(&v), "length", vec![], Ty::Int)
+        }
+        _ => call(var(&v), "length", vec![], Ty::Int),
+      };
+      let next = self.fresh("s");
+      // acc' = acc * 3 + e  (kept small: at most 6 steps of small values)
+      let sum = Expr::new(Ty::Int, EK::Binary("+", Box::new(Expr::new(Ty::Int, EK::Binary("*", Box::new(Expr::new(Ty::Int, EK::Var(acc.clone()))), Box::new(Expr::new(Ty::Int, EK::Int(3)))))), Box::new(e)));
+      stmts.push(Stmt::Let { pat: Pat::Var(next.clone(), Ty::Int), annot: Some(Ty::Int), init: sum });
+      acc = next;
+    }
+    let _ = cx;
+    Expr::new(Ty::Int, EK::Block { stmts, last: Some(Box::new(Expr::new(Ty::Int, EK::Var(acc)))) })
   }
 
   fn vec_read(&mut self, cx: &mut Ctx, d: u32) -> Expr {
